@@ -3,6 +3,8 @@ Every shard is an exhaustive exploration of one configuration; the union is the
 property's explored space (see DESIGN.md section 5)."""
 import itertools
 
+NO_VALUES = (2, 3, 4, 5, 6, 7)      # io callbacks saying "no" with -1, 2, 257, 65537, INT_MIN+1, 256 (option value -> engine/world.c io_no_value)
+FAIL_VALUES = (2, 3, 4, 5, 6)       # mutex / variable callbacks failing with -1, 256, 65536, INT_MIN, 2 (cb_fail_value)
 DEV = r"\r\n\0?=\s\x80a,"       # deviation alphabet: CR LF NUL ? = space 0x80 lower-case-letter comma
 
 
@@ -101,6 +103,11 @@ def c10_shards(tier, mon="C10", prop="C10"):
                 sh.append(mcx("codes-evt-tok%d-sh%d-ub%d" % (tok, shared, ub), prop=prop, table=T_CODES, cap=40, shared=shared, ubuf=ub, name_alpha="+U", max_name=2, suffix_mask=1,
                               lines=1, refuse_read=1, refuse_write=1, codes_U="OK,HOLD", ecodes_R=ALLE, ecodes_T=ALLE, max_inv=inv, tok=tok, varcb_fail=1,
                               ev="+e:R,+f:T,+g:R,+o:R", act="trigger,hold", trig_budget=2, mon=mon))
+    # variable callbacks failing with -1, 256, 65536, INT_MIN, 2 instead of 1 (any non-zero value is a failure)
+    for fv in FAIL_VALUES:
+      for nm, alpha, sm in (("W", "+WV", 4), ("R", "+RN", 2)):
+        sh.append(mcx("codes-cmd-%s-varcb-fail%d" % (nm, fv), prop=prop, table=T_CODES, cap=40, shared=1, name_alpha=alpha, max_name=2, args_alpha="1,", max_args=3, suffix_mask=sm, lines=1,
+                      refuse_read=1, refuse_write=1, codes_W="OK,ERROR,NEXT", codes_R="OK,DATA_OK,DATA_NEXT", max_inv=2, tok=0, varcb_fail=fv, mon=mon))
     return sh
 
 
@@ -190,8 +197,8 @@ def c11_shards(tier, prop="C11", mon="C11"):
                   refuse_read=1, refuse_write=1, codes_U="OK", codes_R="DATA_OK", max_inv=1, ev="+e:R", act="trigger", trig_budget=2, mon=mon))
     sh.append(mcx("duplex-fulltable-odd", ring=2, prop=prop, table=T_FULL, cap=6, shared=2, name_alpha="+CA", max_name=3, args_alpha="1", max_args=1, suffix_mask=3, lines=2, crlf=0,
                   refuse_read=1, refuse_write=1, codes_U="OK", codes_R="DATA_OK", max_inv=1, ev="+e:R", act="trigger", trig_budget=2, mon=mon))
-    # back-pressure signalled with other values than 0 (-1, 2): anything but 1 means "not written"
-    for rw in (2, 3):
+    # back-pressure signalled with other values than 0 (-1, 2, 257, 65537, INT_MIN+1, 256): anything but 1 means "not written"
+    for rw in NO_VALUES:
         sh.append(duplex("duplex-r1-sh1-refuse%d" % rw, 1, 1, 2, prop, mon, extra=dict(refuse_write=rw)))
     return sh
 
@@ -225,8 +232,8 @@ def p_c12(tier):
                       lines=2, crlf=1, blank=1, refuse_read=1, refuse_write=1, scribble=1, codes_W="OK,ERROR,NEXT", codes_R="OK,DATA_OK,DATA_NEXT,ERROR",
                       codes_U="OK,ERROR,LIST", codes_T="OK,DATA_OK,ERROR", max_inv=1, mon="C12"))
     # "no byte yet" signalled by -1 and by 2 instead of 0 (cat.h: only 1 means a byte was read), with and without scribbling over the character cell
-    for rr in (2, 3):
-        for scr in (0, 1):
+    for rr in NO_VALUES:
+        for scr in ((0, 1) if rr < 4 else (0,)):
             sh.append(mcx("noread%d-scribble%d" % (rr, scr), prop="C12", table=T_AMBIG, cap=6, name_alpha="+TABZ", args_alpha="1A", max_name=3, max_args=7, D=1 if scr else 0, dev=DEV,
                           lines=2, crlf=1, blank=1, refuse_read=rr, refuse_write=1, scribble=scr, codes_W="OK,ERROR", codes_R="OK,DATA_OK", codes_U="OK,ERROR", codes_T="OK", max_inv=1, mon="C12"))
     sh += [s for s in c11_shards(tier, prop="C12", mon="C12") if s["tag"].endswith("-run") or "refuse" in s["tag"]]
@@ -304,7 +311,7 @@ def c14_shards(tier, prop="C14", mon="C14"):
                           suffix_mask=sm, lines=2 if quick else 3, crlf=1, refuse_read=1, refuse_write=1, codes_W="HOLD,OK", codes_R="HOLD,DATA_OK", codes_U="HOLD,OK",
                           codes_T="HOLD,OK", ecodes_R="OK,HEXIT_OK,HEXIT_ERR,DATA_OK,ERROR,LIST,9", ecodes_T="OK,ERROR,HEXIT_OK,LIST", max_inv=1, tok=1, ev="+e:R,+x:R,+y:T", act="trigger,hold", trig_budget=2 if quick else 4,
                           h_hold_exit=1, mon=mon))
-    for rw in (2, 3):
+    for rw in NO_VALUES:
         sh.append(mcx("hold-U-refuse%d" % rw, ring=1, prop=prop, table=T_HOLD, cap=16, shared=0, name_alpha="+U", max_name=2, args_alpha="1", max_args=1,
                       suffix_mask=1, lines=2, refuse_read=1, refuse_write=rw, codes_U="HOLD,OK", ecodes_R="OK,HEXIT_ERR", max_inv=1, tok=1, ev="+e:R,+x:R", act="trigger,hold", trig_budget=1, mon=mon))
     # the same with a mutex interface configured (no fault injection): a spurious or repeated release must leave the lock balanced
@@ -355,6 +362,11 @@ def c16_shards(tier):
             sh.append(duplex("mutex-%s-r%d" % (nm, ring), ring, ring - 1, 2 if quick else 3, "C16", "C16",
                              extra=dict(mutex=1, faults=1, h_trigger=0, act="trigger,hold,queries", suffix_mask=sm, ev="+u:R,+h:R,+t:T,+d:R,+w:R", crlf=0, max_name=2,
                                         ecodes_R="OK,DATA_OK,DATA_NEXT,HEXIT_OK,HEXIT_ERR", ecodes_T="OK,DATA_OK,HEXIT_OK,HEXIT_ERR", codes_T="OK,DATA_OK", codes_R="OK,DATA_OK,DATA_NEXT")))
+    # lock()/unlock() failing with -1, 256, 65536, INT_MIN, 2 instead of 1 (any non-zero value is a failure)
+    for fv in FAIL_VALUES:
+      sh.append(duplex("mutex-run-r1-fail%d" % fv, 1, 0, 2, "C16", "C16",
+                     extra=dict(mutex=1, faults=fv, h_trigger=0, act="trigger,hold,queries", suffix_mask=1, ev="+u:R,+h:R,+d:R", crlf=0, max_name=2,
+                                ecodes_R="OK,DATA_OK,HEXIT_OK", ecodes_T="OK", codes_T="OK", codes_R="OK,DATA_OK")))
     return sh
 
 
